@@ -220,6 +220,8 @@ struct StreamSpec {
     seed: u64,
     w: String,
     r: String,
+    /// `api:param:n`: read about `n` bytes through another API first (`none` = no prefix)
+    pre: String,
     slow: usize,
 }
 
@@ -229,6 +231,7 @@ fn stream_spec(words: &[&str], prefix: &str) -> StreamSpec {
         seed: kvn(words, &format!("{prefix}seed"), 0),
         w: kv(words, &format!("{prefix}w")).unwrap_or_else(|| "all:1000".into()),
         r: kv(words, &format!("{prefix}r")).unwrap_or_else(|| "read:1000".into()),
+        pre: kv(words, &format!("{prefix}pre")).unwrap_or_else(|| "none".into()),
         slow: kvn(words, &format!("{prefix}slow"), 0) as usize,
     }
 }
@@ -290,11 +293,55 @@ struct ReadOutcome {
     contract: Option<String>,
 }
 
-async fn read_stream(r: &mut RecvStream, mode: &str, slow: usize) -> Result<ReadOutcome, String> {
+async fn read_stream(r: &mut RecvStream, mode: &str, pre: &str, slow: usize) -> Result<ReadOutcome, String> {
     let parts: Vec<&str> = mode.split(':').collect();
     let p = parts.get(1).and_then(|x| x.parse::<usize>().ok()).unwrap_or(1000).max(1);
     let mut out = ReadOutcome { data: vec![], eos: false, post_eos: false, contract: None };
     let mut reads = 0usize;
+    // --- a prefix of the stream through a different API (the APIs share one read position)
+    let pp: Vec<&str> = pre.split(':').collect();
+    if pp[0] != "none" {
+        let q = pp.get(1).and_then(|x| x.parse::<usize>().ok()).unwrap_or(100).max(1);
+        let want = pp.get(2).and_then(|x| x.parse::<usize>().ok()).unwrap_or(0);
+        while out.data.len() < want && !out.eos {
+            match pp[0] {
+                "read" => {
+                    let BufResult(res, buf) = r.read(Vec::with_capacity(q)).await;
+                    let n = res.map_err(|e| format!("read:{e}"))?;
+                    if n == 0 {
+                        out.eos = true;
+                    }
+                    out.data.extend_from_slice(&buf[..n.min(buf.len())]);
+                }
+                "chunk" | "uchunk" => match r.read_chunk(q, pp[0] == "chunk").await.map_err(|e| read_err(&e))? {
+                    None => out.eos = true,
+                    Some(ch) => {
+                        if ch.bytes.is_empty() || ch.bytes.len() > q || ch.offset != out.data.len() as u64 {
+                            out.contract = Some(format!(
+                                "prefix read_chunk({q}) gave {} bytes at offset {} after {} bytes",
+                                ch.bytes.len(),
+                                ch.offset,
+                                out.data.len()
+                            ));
+                        }
+                        out.data.extend_from_slice(&ch.bytes);
+                    }
+                },
+                "chunks" => {
+                    let mut bufs: Vec<Bytes> = (0..q).map(|_| Bytes::new()).collect();
+                    match r.read_chunks(&mut bufs).await.map_err(|e| read_err(&e))? {
+                        None => out.eos = true,
+                        Some(n) => {
+                            for b in &bufs[..n.min(q)] {
+                                out.data.extend_from_slice(b);
+                            }
+                        }
+                    }
+                }
+                other => return Err(format!("bad prefix mode {other}")),
+            }
+        }
+    }
     macro_rules! pace {
         () => {
             reads += 1;
@@ -366,7 +413,8 @@ async fn read_stream(r: &mut RecvStream, mode: &str, slow: usize) -> Result<Read
             if n != buf.len() {
                 out.contract = Some(format!("read_to_end returned {n}, buffer holds {}", buf.len()));
             }
-            out.data = buf;
+            // the buffer holds what was NOT yet returned by the prefix reads: the concatenation is the stream
+            out.data.extend_from_slice(&buf);
             out.eos = true;
         }
         other => return Err(format!("bad read mode {other}")),
@@ -393,7 +441,7 @@ struct TCtx {
 }
 
 async fn reader_task(ctx: Rc<TCtx>, line: usize, slot: usize, mut r: RecvStream, spec: StreamSpec) {
-    let res = read_stream(&mut r, &spec.r, spec.slow).await;
+    let res = read_stream(&mut r, &spec.r, &spec.pre, spec.slow).await;
     let text = match res {
         Ok(o) => {
             let want = payload(spec.seed, spec.len);
@@ -1737,6 +1785,29 @@ async fn run_endpoint_case(lines: &[String], ex: &mut Exec) -> Vec<String> {
 
 // ------------------------------------------------------------------------------------------- generator
 
+/// a prefix read through another API: (api, parameter, about how many bytes)
+fn gen_prefix(rng: &mut Rng, len: usize, main: &str) -> String {
+    if len < 2 || !rng.chance(2, 5) {
+        return "none".into();
+    }
+    let n = match rng.below(4) {
+        0 => 1,
+        1 => rng.range(1, (len as u64).min(64)),
+        2 => rng.range(1, (len as u64).min(3000)),
+        _ => (len as u64).min(3000), // possibly the whole stream
+    };
+    let api = if main == "end" {
+        *rng.pick(&["read", "chunk", "chunks", "uchunk"])
+    } else {
+        *rng.pick(&["read", "chunk", "chunks"])
+    };
+    let q = match api {
+        "chunks" => rng.range(1, 4),
+        _ => (*rng.pick(&[1u64, 7, 100, 1200, 5000])).max(n / 40 + 1),
+    };
+    format!("{api}:{q}:{n}")
+}
+
 fn gen_stream_params(rng: &mut Rng, big: bool) -> (usize, String, String, usize) {
     let len = match rng.below(10) {
         0 => 0,
@@ -1771,9 +1842,9 @@ fn gen_stream_params(rng: &mut Rng, big: bool) -> (usize, String, String, usize)
         _ => format!("wchunks:{}:{}", chunk(rng), rng.range(1, 9)),
     };
     let r = match rng.below(8) {
-        0..=3 => format!("read:{}", chunk(rng)),
-        4 | 5 => format!("chunk:{}", chunk(rng)),
-        6 => format!("chunks:{}", rng.range(1, 33)),
+        0..=2 => format!("read:{}", chunk(rng)),
+        3 | 4 => format!("chunk:{}", chunk(rng)),
+        5 => format!("chunks:{}", rng.range(1, 33)),
         _ => "end".to_string(),
     };
     let slow = if rng.chance(1, 4) { rng.range(1, 4) as usize * (len / 4000 + 1) } else { 0 };
@@ -1822,11 +1893,13 @@ fn gen_transfer(rng: &mut Rng, idx: usize, thorough: bool) -> Case {
             eslow = bound_slow(eslow, elen, &er);
             budget -= elen;
             let eseed = rng.below(1 << 30);
+            let (pre, epre) = (gen_prefix(rng, len, &r), gen_prefix(rng, elen, &er));
             lines.push(format!(
-                "T bi {dir} len={len} seed={seed} w={w} r={r} slow={slow} elen={elen} eseed={eseed} ew={ew} er={er} eslow={eslow}"
+                "T bi {dir} len={len} seed={seed} w={w} r={r} pre={pre} slow={slow} elen={elen} eseed={eseed} ew={ew} er={er} epre={epre} eslow={eslow}"
             ));
         } else {
-            lines.push(format!("T uni {dir} len={len} seed={seed} w={w} r={r} slow={slow}"));
+            let pre = gen_prefix(rng, len, &r);
+            lines.push(format!("T uni {dir} len={len} seed={seed} w={w} r={r} pre={pre} slow={slow}"));
         }
     }
     if rng.chance(1, 3) {
@@ -2187,6 +2260,21 @@ fn dedicated() -> Vec<Case> {
         c("ep-zero-connections", &["E ep zero", "E pend", "E pend", "E pend", "E close", "E shutdown"]),
         c("ep-drained-connection", &["E ep drained", "E pend", "E pend", "E close", "E shutdown"]),
         c("ep-live-connection", &["E ep live", "E pend", "E act connect", "E pend", "E pend", "E close", "E shutdown"]),
+        // the read APIs share one read position: a prefix through one API, the rest through `read_to_end` (which
+        // reassembles from absolute offsets) or another API
+        c(
+            "mixed-read-apis",
+            &[
+                "T conn srw=1250000 rw=10000000 sw=10000000 uni=100 bi=100",
+                "T uni c2s len=5000 seed=11 w=all:1000 r=end pre=read:100:300 slow=0",
+                "T uni c2s len=5000 seed=12 w=all:700 r=end pre=chunk:64:1 slow=0",
+                "T uni s2c len=9000 seed=13 w=chunks:500:3 r=end pre=chunks:2:2000 slow=0",
+                "T uni s2c len=4000 seed=14 w=write:300 r=end pre=uchunk:50:777 slow=0",
+                "T uni c2s len=3000 seed=15 w=all:1000 r=end pre=read:5000:3000 slow=0",
+                "T bi c2s len=6000 seed=16 w=all:1000 r=chunk:100 pre=read:10:55 slow=0 elen=6000 eseed=17 ew=all:999 er=read:333 epre=chunks:1:1000 eslow=0",
+                "T end",
+            ],
+        ),
         // the two halves of a bidirectional stream in different tasks: dropping one half must not touch the other
         // half's waker (same StreamId!)
         c(
